@@ -16,7 +16,7 @@ CHECKS = {
         note="Trusted: wire codec and M-stream. Caller respects documented preconditions.",
         technique=TECH + ": caller-schedule simulator over stream::Parser vs. reference model"),
     "C04": dict(engine="D1", cat="exploration", ref="DESIGN.md 4/C04",
-        text="Seeded traffic dense in reply-eliciting records at every position class, bodies split at every offset by 1-byte schedules; the concatenated parser output is a prefix of the model's reply list at every step and equal at quiescence (exactly-once, order, type, id, status, body in one comparison); reported output counts equal buffer growth.",
+        text="Seeded traffic dense in reply-eliciting records at every position class, bodies split at every offset by 1-byte schedules; the concatenated parser output is a prefix of the model's reply list at every step and equal at quiescence (exactly-once, order, type, id, status, body in one comparison); reported output counts equal buffer growth. One case in 40 carries a GetValues query of 257..1200 pairs (well-known names behind the 256th) in a buffer that holds it whole.",
         note="Trusted: wire codec (independent GetValuesResult/EndRequest/Unknown encoders) and the models' reply rules.",
         technique=TECH + ": caller-schedule simulator, reply stream vs. reference model"),
     "C05": dict(engine="D1+D2", cat="exploration", ref="DESIGN.md 4/C05",
@@ -24,7 +24,7 @@ CHECKS = {
         note="Trusted: models; feeding discipline documented in DESIGN (bytes of request i+1 reach stream parser i only while it is held at the final terminator; in async_pipelined handlers never read while no stream is selected, since a parser without an active stream ignores everything it is given).",
         technique=TECH + ": caller-schedule simulator over the parser conversion chain"),
     "C06": dict(engine="D1", cat="exploration", ref="DESIGN.md 4/C06",
-        text="Configuration sweep (buffer sizes 0..64 dense, residues near 4K/8K/64K/1M, random) with preambles whose critical pair sits exactly at the documented bound, under all chunk styles incl. exact-fill reads; effective size formula checked; after every parse() with done == false the input buffer must be non-empty. Beyond-the-buffer cases put the oversized pair into the Params stream or into a GetValues query. Scenario chain_handoff re-uses the C05 conversion chain, in which request parsers start from an inherited (possibly completely full) buffer, with the same invariant.",
+        text="Configuration sweep (buffer sizes 0..64 dense, residues near 4K/8K/64K/1M, random) with preambles whose critical pair sits exactly at the documented bound, under all chunk styles incl. exact-fill reads; effective size formula checked; after every parse() with done == false the input buffer must be non-empty. Beyond-the-buffer cases put the oversized pair into the Params stream or into a GetValues query. Scenario chain_handoff re-uses the C05 conversion chain, in which request parsers start from an inherited (possibly completely full) buffer, with the same invariant; chains of requests without pairs configure sizes 0..24 and check the effective size on both construction routes (request::Parser::new, stream::Parser::new + into_request_parser).",
         note="Trusted: M-preamble. B-12..B-8 and beyond-buffer pairs are run for totality and honest StuckOnInput reporting, not asserted to parse.",
         technique=TECH + ": configuration/schedule search over request::Parser"),
     "C18": dict(engine="D1+D2", cat="exploration", ref="DESIGN.md 4/C18",
@@ -36,7 +36,7 @@ CHECKS = {
         note="Trusted: reference models on malformed input (they implement the same documented classification: version before type, BeginRequest length, role, id). StuckOnInput accepted only when a Params/GetValues record announces more content than the effective buffer.",
         technique=TECH + ": mutation-based hostile traffic under seeded schedules, cross-schedule and model comparison"),
     "C20": dict(engine="D4", cat="fault_enumeration", ref="DESIGN.md 4/C20",
-        text="For each seeded response every destination capacity 0..=len+1 is enumerated against a sink that also injects short writes and Interrupted per a seeded script, in both full-sink modes, plus bounded &mut [u8] destinations; all 900 status codes are covered per batch. Output bytes, returned count, failure on insufficient capacity and prefix-on-failure are checked.",
+        text="For each seeded response every destination capacity 0..=len+1 is enumerated against a sink that also injects short writes and Interrupted per a seeded script, in both full-sink modes, plus bounded &mut [u8] destinations; all 900 status codes are covered per batch; redirect locations include local paths, absolute URLs and strings of URL punctuation in any position; rare cases have hundreds of header lines or values above 64 KiB (capacities then sampled). Output bytes, returned count, failure on insufficient capacity and prefix-on-failure are checked.",
         note="Trusted: http crate's canonical_reason as the reason-phrase reference; the expected grammar is built by the harness from the documented format.",
         technique=TECH + ": fault-injecting io::Write sink, capacity exhaustion enumerated at every byte"),
     "C07": dict(engine="D2", cat="exploration", ref="DESIGN.md 4/C07",
@@ -44,7 +44,7 @@ CHECKS = {
         note="Trusted: M-conn, wire codec. The order of a management reply relative to EndRequest is constrained only for queries that provably were parsed during the request (they lie before input its handler received).",
         technique=TECH + ": deterministic executor + simulated transport + peer model, history checked against reference model"),
     "C08": dict(engine="D2", cat="exploration", ref="DESIGN.md 4/C08",
-        text="The same connection machinery in strict wake-only mode with the closed-loop peer of the quantifier; invariant evaluated at every suspension on the transport read (all replies for complete records already read are in the transport log) and wait-for-cycle detection at quiescence, with queries placed before, between and during requests and mid-stream. Found and now guards the two repaired defects F1/F2. Scenario closed_loop_duplex runs the same peer against handlers with concurrent writer and reader sub-tasks (a writer holds the output lock across Pending writes while the reader owes a reply); scenario query_then_more_in_one_burst lets further records follow a query in the same burst and evaluates the invariant whenever the task suspends having read a whole number of records.",
+        text="The same connection machinery in strict wake-only mode with the closed-loop peer of the quantifier; invariant evaluated at every suspension on the transport read (all replies for complete records already read are in the transport log) and wait-for-cycle detection at quiescence, with queries placed before, between and during requests and mid-stream. Found and now guards the two repaired defects F1/F2. Scenario closed_loop_duplex runs the same peer against handlers with concurrent writer and reader sub-tasks (a writer holds the output lock across Pending writes while the reader owes a reply); scenario query_then_more_in_one_burst lets further records follow a query in the same burst and evaluates the invariant whenever the task suspends having read a whole number of records; one burst plan in 60 has 257..1500 reply-owing records arriving as one burst in a buffer that holds them.",
         note="Trusted: executor strictness (a task is polled only after its waker fired), M-conn reply list. The closed-loop scenarios are valid under the closed-loop peer only (whole records, later ones withheld); the burst scenario evaluates the invariant at record boundaries only, because close() legitimately defers a reply while it waits for the rest of a record it is skipping.",
         technique=TECH + ": strict deterministic executor + closed-loop peer, suspension-point invariant and deadlock detection"),
     "C09": dict(engine="D2", cat="exploration", ref="DESIGN.md 4/C09",
@@ -64,7 +64,7 @@ CHECKS = {
         note="Trusted: two spin detectors - the executor step cap for tasks that are re-polled for ever, and a per-poll cap on transport calls (2 000 000) for a poll that keeps calling the transport without returning; a poll that loops without touching the transport would still hang the check. Handlers propagate I/O errors. The fault list also contains a flush error at every flush call; a share of the scripts use concurrent writer sub-tasks that are dropped where they stand when one fails.",
         technique=TECH + ": fault-point enumeration over a replayed seeded script (EOF / read error / write error / zero write at every index)"),
     "C14": dict(engine="D2+D3+D5", cat="exploration", ref="DESIGN.md 4/C14",
-        text="Connection side: Runner::shutdown requested as a scheduler event at a seeded step (before the first read, mid-preamble, during the handler, during close, between requests, idle); started requests complete with their EndRequest, no handler starts in a poll that begins after the request, idle connections stop without another transport read, the shutdown future is Ready only after the token is dropped and its task is woken for it. Wait group: real threads under a serialising scheduler (one baton, seeded choice of the next thread at every harness operation, Waker callback and verif-hooks point) explore the interleavings of token drops with polls of the shutdown future, including the last drop landing between the liveness check and the waker registration and between registration and the drop of the temporary reference; Ready never early, no lost wake-up, and once Ready is seen a request on a clone of the runner (limit = number of tokens) is served at once (a dropped token no longer occupies its slot). The same clauses are additionally sampled under Miri's seeded scheduler (64 / 4096 schedules with preemption anywhere).",
+        text="Connection side: Runner::shutdown requested as a scheduler event at a seeded step (before the first read, mid-preamble, during the handler, during close, between requests, idle); started requests complete with their EndRequest, no handler starts in a poll that begins after the request, idle connections stop without another transport read, the shutdown future is Ready only after the token is dropped and its task is woken for it. Wait group: real threads under a serialising scheduler (one baton, seeded choice of the next thread at every harness operation, Waker callback and verif-hooks point) explore the interleavings of token drops with polls of the shutdown future, including the last drop landing between the liveness check and the waker registration and between registration and the drop of the temporary reference; Ready never early, no lost wake-up, and once Ready is seen a request on a clone of the runner (limit = number of tokens) is served at once (a dropped token no longer occupies its slot). Scenario multi_conn_shutdown stops 1..4 (one case in 50: 65..260) keep-alive connections of one runner at seeded stages: each is woken and stops, no handler starts afterwards, the shutdown future is Ready exactly when the last one is gone. The same clauses are additionally sampled under Miri's seeded scheduler (64 / 4096 schedules with preemption anywhere).",
         note="Trusted: executor strictness for the wake-up clauses; the thread scheduler is sequentially consistent and does not explore interleavings inside futures' AtomicWaker. A management reply being written by an idle connection may be cut by shutdown (statement is silent).",
         technique=TECH + ": deterministic executor with shutdown as a scheduled event + serialising thread scheduler (baton) over real threads"),
     "C13": dict(engine="D2+D5", cat="exploration", ref="DESIGN.md 4/C13",
